@@ -1065,6 +1065,26 @@ func registerDBModels() {
 		x.sc.Decl("fn:fetched", "(declare-fun fetched (Slice) Bool)")
 		return &CV{T: App(SBool, "fetched", x.cvTerm(v, nil)), Ty: types.Typ[types.Bool]}, nil
 	}
+	// fetchedfor(b, start, limit): b is the answer of a successful fetch of exactly that range
+	contractBuiltins["fetchedfor"] = func(x *Exec, env *CEnv, n *CCall) (*CV, error) {
+		if len(n.Args) != 3 {
+			return nil, fmt.Errorf("fetchedfor(b, start, limit)")
+		}
+		var ts []Term
+		for i, a := range n.Args {
+			v, err := x.eval(env, a)
+			if err != nil {
+				return nil, err
+			}
+			like := &CV{T: Term{"", SBV64}}
+			if i == 0 {
+				like = nil
+			}
+			ts = append(ts, x.cvTerm(v, like))
+		}
+		x.sc.Decl("fn:fetchedfor", "(declare-fun fetchedfor (Slice (_ BitVec 64) (_ BitVec 64)) Bool)")
+		return &CV{T: App(SBool, "fetchedfor", ts...), Ty: types.Typ[types.Bool]}, nil
+	}
 	contractBuiltins["has"] = func(x *Exec, env *CEnv, n *CCall) (*CV, error) {
 		m, err := x.eval(env, n.Args[0])
 		if err != nil {
